@@ -25,7 +25,10 @@
 //   RPM id D d srand reps        moments of gaussian_projection_matrix (meaningful with -DC19_PLAIN)
 //   RPP id D d srand             (-DC19_PLAIN) the std::rand answers gaussian_projection_matrix(D, d) consumes
 //                                (re-drawn after the same srand) and the matrix itself: replay of the polar method
+//   CPULIMIT s                   RLIMIT_CPU for this process (a hang is detected by CPU time, not by wall clock)
 // stdout: "C id" (flushed before the case runs), result lines, "END id".
+#include <sys/resource.h>
+
 #include <algorithm>
 #include <cmath>
 #include <cstdio>
@@ -600,6 +603,15 @@ int main()
     {
         if (!(std::cin >> id))
             break;
+        if (cmd == "CPULIMIT")
+        {
+            // hang detection that does not depend on the load of the machine: SIGXCPU ends the process after `id` seconds of CPU
+            struct rlimit rl;
+            rl.rlim_cur = (rlim_t)std::atol(id.c_str());
+            rl.rlim_max = rl.rlim_cur + 5;
+            setrlimit(RLIMIT_CPU, &rl);
+            continue;
+        }
         std::printf("C %s\n", id.c_str());
         std::fflush(stdout);
 #ifndef C19_PLAIN
